@@ -14,6 +14,18 @@ CHECKS = {
     },
 }
 
+CHECKS['C12'] = {
+    'harnesses': [{'harness': 'nq_sim', 'binary': 'nq_sim'}],
+    'technique': 'deterministic simulation: seeded interleaving of four op streams against a set/priority/round-robin reference model',
+    'design_ref': 'DESIGN.md 4.3, 6 (C12)',
+    'level_text': 'Seeded search over interleavings of application, link-layer, client and disconnect op streams on notification_queue for 16 priority '
+                  'partitions; after every op the return value and the dequeued entry are compared with a model (pending set, outstanding indication, '
+                  'priority levels, per-level fairness), and a fault-free drain phase checks bounded progress. Sampling, not proof.',
+    'level_note': 'trusted: the model in harness/nq_sim.cpp; fairness is checked between characteristics of a level (a characteristic is not served twice while another one stays eligible and unserved)',
+    'assumptions': ['ops are atomic here (interleaving inside an op is C13)', 'first tuple element is the highest priority'],
+    'explanation': 'Partitions include single-entry levels, which use a separate implementation.',
+}
+
 # properties that are deliberately not decided by simulation (see DESIGN.md section 7)
 NOT_APPLICABLE = {
     'C04': 'compile-time mapping of the declaration to handles: no schedule, clock, fault or history can influence it (DESIGN.md 7); mapping errors still surface under C02/C03, whose model has an independent handle table',
